@@ -315,7 +315,7 @@ func (p *Program) runHarnessMulti(fn *ssa.Function, bodies []string, decls []str
 	os.WriteFile(ovFile, ovJSON, 0o644)
 	bin := filepath.Join(dir, "replay.bin")
 	cmdline := fmt.Sprintf("cd %s && GOFLAGS=-mod=mod GOPROXY=off go build -overlay %s -o %s ./cmd/zz_verif_replay && %s", p.Repo, ovFile, bin, bin)
-	cmd := exec.Command("go", "build", "-overlay", ovFile, "-o", bin, "./cmd/zz_verif_replay")
+	cmd := exec.Command("go", "build", "-tags", "verif", "-overlay", ovFile, "-o", bin, "./cmd/zz_verif_replay")
 	cmd.Dir = p.Repo
 	cmd.Env = append(os.Environ(), "GOFLAGS=-mod=mod", "GOPROXY=off")
 	if out, err := cmd.CombinedOutput(); err != nil {
